@@ -131,8 +131,16 @@ def search(ctx, broken):
     if R.truncate_search(ctx, R.mon_c09):
         return True
     specs = S.panel("thorough", ctx.seed + 31)[:48]
-    out = [(tr, None) for tr in S.traces([(s, None) for s in specs], "c09s")]
+    out = [(tr, None) for tr in S.traces([(s, None) for s in specs], "c09s") if not _generator_made_invalid_problem(tr)]
     return R.apply_monitor(ctx, out, R.mon_c09) > 0
+
+
+def _generator_made_invalid_problem(tr):
+    """the random thorough panel combines x0 kinds and constraint kinds freely; a start that violates the constraint is an INVALID problem and its
+    rejection (ValueError, C02) is the documented behaviour - not an input for C09 (it used to be reported as a concrete violation by this search)"""
+    ce = tr.get("construct_exc")
+    return bool(ce) and ce[0] == "ValueError" and "does not satisfy non-bound constraints" in ce[1] or \
+        bool(ce) and ce[0] == "ValueError" and "no longer satisfy non-bound constraint" in ce[1]
 
 
 def replay(ctx, rp):
